@@ -2,3 +2,4 @@ pub mod c13;
 pub mod c20;
 pub mod c14;
 pub mod c17;
+pub mod c10;
